@@ -64,13 +64,19 @@ Definition skel_argmax (is_min : bool) (s : list Z) (dim : option Z) (keepdim : 
   ((match dim with None => [("Reshape", [[0]; [-1]])] | Some _ => if scalar then [("Reshape", [[0]; [-1]])] else [] end)
    ++ [(nm, [[match dim with None => 0 | Some d => d end]; kd keepdim; [0]])]
    ++ (if scalar then [("Squeeze", [])] else []))%list.
-(* proposed_fixes/C08_argmax_keepdim_no_dim.diff: dim None with keepdim: the result is reshaped to [1] * rank *)
+(* repaired (ready/C08_06_argmax_keepdim_no_dim.diff): dim None, keepdim, rank > 1: Reshape(result, [1] * rank) *)
 Definition aten_argmax_shape_fixed (s : list Z) (dim : option Z) (keepdim : bool) : option (list Z) :=
   match dim with
-  | None => obind (aten_argmax_shape s None false) (fun s2 =>
-              if keepdim && negb (zlen s =? 0) then reshape_shape s2 (repeat 1 (List.length s)) false else Some s2)
+  | None => obind (aten_argmax_shape s None keepdim) (fun s2 =>
+              if keepdim && (1 <? zlen s) then reshape_shape s2 (repeat 1 (List.length s)) false else Some s2)
   | Some _ => aten_argmax_shape s dim keepdim
   end.
+Definition skel_argmax_v (fixed is_min : bool) (s : list Z) (dim : option Z) (keepdim : bool) : skel :=
+  (skel_argmax is_min s dim keepdim ++
+   (match dim with
+    | None => if fixed && keepdim && (1 <? zlen s) then [("Reshape", [[0]; repeat 1 (List.length s)])] else []
+    | Some _ => []
+    end))%list.
 
 (* ================================================================== aten_prod / aten_prod_dim_int
    prod: dtype given: Cast(self, dtype); elif self.dtype.is_integer() (bool is not): Cast(self, INT64); ReduceProd(keepdims = 0).
@@ -234,3 +240,91 @@ Definition skel_conv_core (s w : list Z) (groups : Z) (transposed : bool) (attrs
 Definition skel_zero_bias (e : Z) (has_bias : bool) : skel :=
   if has_bias then []
   else [("Shape", [[1]; [0]]); (if e =? 3 then ("Concat", [[0]; [2]]) else ("Expand", [[1]])); ("CastLike", [[0]]); ("Expand", [])].
+
+(* ================================================================== repaired variants (proposed_fixes/ready/C08_*.diff); the harness picks
+   them when the skeleton it observes shows the repaired code.  A flag that is false gives the code as read at the pinned commit. *)
+(* C08_04: Greater(ReduceMax(..), 0) instead of Cast(.., BOOL) in aten_any / aten_any_dim / _aten_any_dims_no_dim *)
+Definition last_allany (any gt : bool) : string * list (list Z) := if any && gt then ("Greater", [[0]]) else ("Cast", [[9]]).
+Definition skel_allany_dim_v (gt any : bool) (dim : Z) (keepdim : bool) : skel :=
+  [("Cast", [[9]]); ("Cast", [[7]]); ("Reshape", [[0]; [dim]; [-1]]); (red_name any, [kd keepdim; [0]]); last_allany any gt].
+Definition skel_allany_nodim_v (gt any : bool) (s : list Z) (keepdim : bool) : skel :=
+  if zlen s =? 0 then [("Cast", [[9]])]
+  else [("Cast", [[9]]); ("Cast", [[7]]); (red_name any, [kd keepdim; [0]]); last_allany any gt].
+(* C08_05: dim None -> no-dim variant; dim = () or a 0-d input -> Cast(self, BOOL); else as before *)
+Definition aten_allany_dims_shape_fixed (s : list Z) (dims : option (list Z)) (keepdim : bool) : option (list Z) :=
+  match dims with
+  | None => aten_allany_nodim_shape s keepdim
+  | Some ds => if (zlen ds =? 0) || (zlen s =? 0) then Some s else aten_allany_dims_shape s (Some ds) keepdim
+  end.
+Definition skel_allany_dims_v (gt df any : bool) (s : list Z) (dims : option (list Z)) (keepdim : bool) : skel :=
+  match dims with
+  | None => skel_allany_nodim_v gt any s keepdim
+  | Some ds =>
+      if df && ((zlen ds =? 0) || (zlen s =? 0)) then [("Cast", [[9]])]
+      else match ds with
+           | [] => skel_allany_nodim_v gt any s keepdim
+           | _ => (flat_map (fun d => skel_allany_dim_v gt any d true) ds ++ (if keepdim then [] else [("Squeeze", [ds])]))%list
+           end
+  end.
+(* C08_07: integral inputs (BOOL included) are cast to INT64 in aten_prod and aten_prod_dim_int; C08_08: a 0-d input of prod.dim_int
+   is returned through Identity *)
+Definition aten_prod_dtype_fixed (t : Z) (dtype : option Z) : option Z :=
+  let t1 := match dtype with Some d => d | None => if is_integral t then 7 else t end in
+  if t1 =? 9 then None else Some t1.
+Definition aten_prod_dim_shape_fixed (s : list Z) (dim : Z) (keepdim : bool) : option (list Z) :=
+  if zlen s =? 0 then Some s else aten_prod_dim_shape s dim keepdim.
+Definition skel_prod_v (pf : bool) (t : Z) (dtype : option Z) : skel :=
+  (match dtype with Some d => [("Cast", [[d]])] | None => if is_integer_ir t || (pf && (t =? 9)) then [("Cast", [[7]])] else [] end
+   ++ [("ReduceProd", [[0]; [0]])])%list.
+Definition skel_prod_dim_v (pf zf : bool) (s : list Z) (t : Z) (dtype : option Z) (dim : Z) (keepdim : bool) : skel :=
+  (match dtype with Some d => [("Cast", [[d]])] | None => if pf && is_integral t then [("Cast", [[7]])] else [] end
+   ++ (if zf && (zlen s =? 0) then [("Identity", [])] else [("ReduceProd", [kd keepdim; [0]; [dim]])]))%list.
+
+(* ================================================================== prims_var (prims.py; the registered variance): `if not dims: dims = None`;
+   inp - ReduceMean(inp, dims, keepdims = 1); var = ReduceMean(.., dims, keepdims = 0); `if correction != 0`: numel =
+   ReduceProd(Gather(Shape(inp), dims, axis = 0)) -- with dims None the Gather has no indices and tracing fails --;
+   var * numel / (numel - correction).  Flags: cf = C08_09 (count from the whole shape without dims), nf = C08_10 (divisor clamped at 0) *)
+Definition pv_dims (dims : list Z) : option (list Z) := match dims with [] => None | _ => Some dims end.
+Definition prims_var_shape (s : list Z) (dims : list Z) : option (list Z) :=
+  obind (reduce_shape s (pv_dims dims) true) (fun _ => reduce_shape s (pv_dims dims) false).
+Definition prims_var_count (cf : bool) (s : list Z) (dims : list Z) : option Z :=
+  match dims with
+  | [] => if cf then Some (prodZ s) else None
+  | _ => option_map prodZ (gather_axis s dims)
+  end.
+Definition prims_var_val (nf : bool) (ssd : Q) (n numel : Z) (c : Q) : fval :=
+  if n =? 0 then NaN
+  else let v := (ssd / inject_Z n)%Q in
+       if qzero c then Fin v
+       else fdiv (v * inject_Z numel) (if nf then qmax0 (inject_Z numel - c) else (inject_Z numel - c)%Q).
+Definition skel_prims_var (cf nf : bool) (dims : list Z) (c : Q) : skel :=
+  let ax := match dims with [] => [] | _ => [dims] end in
+  ([("ReduceMean", ([1] :: [0] :: ax)); ("Sub", []); ("Mul", []); ("ReduceMean", ([0] :: [0] :: ax))]
+   ++ (if qzero c then []
+       else ([("Shape", [[0]])] ++ (match dims with [] => [] | _ => [("Gather", [[0]; dims])] end)
+             ++ [("ReduceProd", [[0]; [0]]); ("CastLike", []); ("Mul", []); ("CastLike", cint c); ("Sub", [])]
+             ++ (if nf then [("CastLike", [[0]]); ("Max", [])] else []) ++ [("Div", [])])))%list.
+
+(* ================================================================== convolution, flagged: of = C08_11 (output_padding expanded), lf = C08_12 (conv2d / conv3d
+   expand one-entry lists), bf = C08_13 (conv3d builds a 1-D zero bias) *)
+Definition aten_convolution_attrs_v (of : bool) (e : Z) (stride padding dilation : list Z) (transposed : bool) (output_padding : list Z) :=
+  aten_convolution_attrs e stride padding dilation transposed (if of then conv_expand1 e output_padding else output_padding).
+Definition aten_convnd_attrs_v (lf bf : bool) (e : Z) (stride padding dilation : list Z) (has_bias : bool) :=
+  let x := fun l => if lf then conv_expand1 e l else l in
+  aten_convnd_attrs e (x stride) (x padding) (x dilation) (has_bias || bf).
+Definition skel_zero_bias_v (bf : bool) (e : Z) (has_bias : bool) : skel :=
+  if has_bias then []
+  else [("Shape", [[1]; [0]]); (if (e =? 3) && negb bf then ("Concat", [[0]; [2]]) else ("Expand", [[1]])); ("CastLike", [[0]]); ("Expand", [])].
+
+(* ================================================================== scatter_add / scatter_reduce, flagged: uf = C08_14 (a 0-d index / src is unsqueezed at 0 as in scatter.src;
+   scatter_reduce only when self is not 0-d) *)
+Definition aten_scatter_add_shape_v (uf : bool) (s : list Z) (dim : Z) (idx src : list Z) : option (list Z) :=
+  if uf then aten_scatter_src_shape s dim idx src else aten_scatter_add_shape s dim idx src.
+Definition aten_scatter_reduce_shape_v (uf : bool) (s : list Z) (dim : Z) (idx src : list Z) (include_self : bool) : option (list Z) :=
+  if uf && negb (zlen s =? 0)
+  then obind (unsq0 idx) (fun i1 => obind (unsq0 src) (fun s1 => aten_scatter_reduce_shape s dim i1 s1 include_self))
+  else aten_scatter_reduce_shape s dim idx src include_self.
+Definition skel_scatter_add_v (uf : bool) (dim : Z) (idx src : list Z) : skel :=
+  if uf then skel_scatter_src dim idx src else skel_scatter_add dim.
+Definition skel_scatter_reduce_v (uf : bool) (s : list Z) (dim : Z) (idx src : list Z) (include_self : bool) : skel :=
+  ((if uf && negb (zlen s =? 0) then (skel_unsq0 idx ++ skel_unsq0 src)%list else []) ++ skel_scatter_reduce s dim include_self)%list.
